@@ -16,7 +16,7 @@ var (
 	gridSchemes = []string{"https", "http", "HTTPS"}
 	gridHosts   = []string{"example.com", "EXAMPLE.com", "example.com:8443", "other.example", "[2001:db8::1]", "[2001:db8::2]:8443", "[2001:DB8::1]"}
 	gridPaths   = []string{"", "/", "/a", "/a/", "/A", "/a/b", "/a/./b", "/a/c/../b", "/a//b"}
-	gridQueries = []string{"", "?", "?x=1", "?x=1&y=2", "?y=2&x=1", "?x=1&x=1", "?x=1&x=2", "?x=2&x=1", "?x=2"}
+	gridQueries = []string{"", "?", "?x=1", "?x=1&y=2", "?y=2&x=1", "?x=1&x=1", "?x=1&x=2", "?x=2&x=1", "?x=2", "?next=/", "?next=", "?x=1&p=/a/", "?x=1&p=/a"}
 	gridFrags   = []string{"", "#frag", "#other"}
 )
 
